@@ -410,7 +410,11 @@ func runC20(c *Ctx) {
 		if la == nil || f == nil {
 			continue
 		}
-		for _, site := range s.Find(f, it.label) {
+		var cbSites []ssa.Instruction
+		for _, g := range c.withHelpers(f) {
+			cbSites = append(cbSites, s.Find(g, it.label)...)
+		}
+		for _, site := range cbSites {
 			nSer++
 			held := la.at[site]["Conn.locker"]
 			R.Ob(c.siteKey(site, "callback under Conn.locker"), c.P.InstrPos(site), held, fmt.Sprintf("%s makes the %s callback without holding Conn.locker (held: %v): Server.Close can log the session out while, or before, this callback runs", it.fn, strings.TrimPrefix(it.label, "cb:"), setList(la.at[site])))
